@@ -27,6 +27,12 @@ type projectOut struct {
 // fresh module `module <mod>` that requires genqlient (replaced by the repository under test) and runs the generator
 // from inside it.
 func runProject(work, mod string, files map[string]string, cfgRel string) *projectOut {
+	return runProjectFrom(work, mod, files, cfgRel, false)
+}
+
+// runProjectFrom: with fromRoot, the process stands in the MODULE ROOT and names the config by its relative path
+// (`genqlient svc/api/genqlient.yaml`), so the config's directory is a relative path too; no `go build` afterwards.
+func runProjectFrom(work, mod string, files map[string]string, cfgRel string, fromRoot bool) *projectOut {
 	dir := filepath.Join(work, "project-"+mod)
 	os.RemoveAll(dir)
 	defer os.RemoveAll(dir)
@@ -54,12 +60,16 @@ func runProject(work, mod string, files map[string]string, cfgRel string) *proje
 				out.Panic = fmt.Sprintf("%v\n%s", r, debug.Stack())
 			}
 		}()
-		if err := os.Chdir(filepath.Dir(cfgPath)); err != nil {
+		cd, arg := filepath.Dir(cfgPath), cfgPath
+		if fromRoot {
+			cd, arg = dir, cfgRel
+		}
+		if err := os.Chdir(cd); err != nil {
 			out.Err = err
 			return
 		}
 		defer os.Chdir(wd)
-		cfg, err := generate.ReadAndValidateConfig(cfgPath)
+		cfg, err := generate.ReadAndValidateConfig(arg)
 		if err != nil {
 			out.Err = err
 			return
@@ -77,7 +87,7 @@ func runProject(work, mod string, files map[string]string, cfgRel string) *proje
 			os.WriteFile(name, b, 0o644)
 		}
 	}()
-	if out.Err != nil || out.Panic != nil {
+	if out.Err != nil || out.Panic != nil || fromRoot {
 		return out
 	}
 	cmd := exec.Command("go", "build", "./...")
@@ -175,6 +185,40 @@ func c10PackageBindings(c *Ctx) {
 		}
 		if out.BuildErr != "" {
 			c.Res.Count("package-bindings:does-not-build (C01)")
+		}
+	}
+}
+
+// c18RelativeConfig: genqlient run from a directory ABOVE the config's (`genqlient svc/api/genqlient.yaml`), with a
+// single-fault operation in a .graphql file and in a Go literal: the diagnostic starts with the file's path
+// relative to the config and the line in that file (C18).
+func c18RelativeConfig(c *Ctx) {
+	yamlFor := func(opsFile string) string {
+		return "schema: schema.graphql\noperations:\n- " + opsFile + "\ngenerated: generated.go\npackage: api\n"
+	}
+	schema := "type Query { user: User }\ntype User { id: ID! name: String }\n"
+	goFile := "package api\n\n// some lines first\n\nvar _ = `# @genqlient\n\nquery GetUser {\n  user {\n    id\n    nope\n  }\n}\n`\n"
+	gqlFile := "# a comment\n\nquery GetUser {\n  user {\n    id\n    nope\n  }\n}\n"
+	for _, cse := range []struct{ file, text, want string }{
+		{"queries.go", goFile, "queries.go:10: "},
+		{"queries.graphql", gqlFile, "queries.graphql:6: "},
+	} {
+		c.Res.Eval()
+		files := map[string]string{"svc/api/genqlient.yaml": yamlFor(cse.file), "svc/api/schema.graphql": schema, "svc/api/" + cse.file: cse.text, "svc/api/doc.go": "package api\n"}
+		out := runProjectFrom(c.Work, "c18rel", files, "svc/api/genqlient.yaml", true)
+		cs := map[string]any{"leg": "relative-config", "files": files, "run_from": "module root", "config": "svc/api/genqlient.yaml"}
+		c.Res.NonTrivial("relative-config|" + cse.file)
+		switch {
+		case out.Panic != nil:
+			c.Res.Add(proto.Finding{Kind: "violation", Class: "panic", What: fmt.Sprintf("generator panicked: %v", out.Panic), Case: cs})
+		case out.Err == nil:
+			c.Res.Add(proto.Finding{Kind: "violation", Class: "invalid-operation-accepted", What: "an operation selecting an unknown field was accepted", Case: cs})
+		default:
+			msg := out.Err.Error()
+			c.Res.Count("relative-config:compared")
+			if !strings.HasPrefix(msg, cse.want) {
+				c.Res.Add(proto.Finding{Kind: "violation", Class: "wrong-or-missing-position:relative-config-directory", What: fmt.Sprintf("genqlient run as `genqlient svc/api/genqlient.yaml`: the diagnostic for the unknown field in svc/api/%s must start with %q (path relative to the config, line of the field), it reads: %s", cse.file, cse.want, firstLine(msg)), Case: cs})
+			}
 		}
 	}
 }
